@@ -154,8 +154,9 @@ Proof. exact tx_goodbye_once. Qed.
 Print Assumptions C06_goodbye_once.
 
 (* a peer's GOODBYE on an established session is answered exactly when the closing flag is not set; the session id
-   is forgotten before onLeave runs; with the default onLeave the tables are empty afterwards and only errors were
-   handed out *)
+   is forgotten before onLeave runs; with the default onLeave every request that was pending has a result
+   afterwards, only the leave error was handed out, and whatever is in the tables now was issued by callbacks during
+   the sweep (fresh futures; nothing at all on asyncio, where callbacks run later) *)
 Theorem C06_goodbye_reply_iff_not_initiated : forall fl cfg s v rs,
   transport s = true -> sid s = Some v -> (goodbye_sent s = true \/ topen s = true) ->
   let '(s', outs) := step fl cfg s (RGoodbye rs) in
@@ -163,7 +164,10 @@ Theorem C06_goodbye_reply_iff_not_initiated : forall fl cfg s v rs,
   /\ (goodbye_sent s = false -> exists t, outs = Sent (MGoodbye RsNormal) :: Called (CbLeave rs None) :: t)
   /\ (goodbye_sent s = true -> exists t, outs = Called (CbLeave rs None) :: t)
   /\ (u_leave_super cfg = true ->
-        pend s' = [] /\ forall x y, In (x, y) (done s') -> In (x, y) (done s) \/ y = RErr (ELeave rs)).
+        (forall r, In r (pend s) -> is_done s' (r_fut r) = true)
+        /\ (forall r', In r' (pend s') -> next_fut s <= r_fut r')
+        /\ (fl = Aio -> pend s' = [])
+        /\ forall x y, In (x, y) (done s') -> In (x, y) (done s) \/ y = RErr (ELeave rs)).
 Proof. exact goodbye_ends. Qed.
 Print Assumptions C06_goodbye_reply_iff_not_initiated.
 
@@ -175,23 +179,53 @@ Proof. exact tx_goodbye_flag. Qed.
 Print Assumptions C06_goodbye_flag_is_initiated.
 
 (* ---- nothing pending ---- *)
+(* Re-entrancy covered: user callbacks / errbacks attached to request futures ([AReact]) that issue call / publish /
+   subscribe / register / unregister when they fire -- on Twisted synchronously inside the sweep (or inside the
+   reply / cancel that completes the future), on asyncio one loop iteration later.  Not covered (assumptions):
+   callbacks that call unsubscribe(), leave(), disconnect() or cancel, callbacks attached to already completed
+   futures, and life-cycle callbacks (onJoin, onLeave, ...) that re-enter the API. *)
+
+(* _errback_outstanding_requests(exc) *)
+Theorem C06_sweep : forall fl cfg s e,
+  let s' := fst (errback_all fl cfg s e) in
+  (forall r, In r (pend s) -> is_done s' (r_fut r) = true)
+  /\ (forall r', In r' (pend s') -> next_fut s <= r_fut r')
+  /\ (transport s = false \/ fl = Aio -> pend s' = [])
+  /\ (forall x y, In (x, y) (done s') -> In (x, y) (done s) \/ y = RErr e)
+  /\ (forall x y, In (x, y) (done s) -> In (x, y) (done s'))
+  /\ lcore s' = lcore s /\ next_fut s <= next_fut s'.
+Proof. exact errback_all_spec. Qed.
+Print Assumptions C06_sweep.
+
+(* the default onLeave: every request pending before has a result; the tables hold at most requests issued by
+   re-entering callbacks during the sweep -- none without a transport, none on asyncio; only the leave error is
+   handed out *)
 Theorem C06_nothing_pending_after_leave : forall fl cfg s rs,
   u_leave_super cfg = true ->
   let s' := fst (fst (do_onLeave fl cfg s rs)) in
-  pend s' = [] /\ forall x y, In (x, y) (done s') -> In (x, y) (done s) \/ y = RErr (ELeave rs).
+  (forall r, In r (pend s) -> is_done s' (r_fut r) = true)
+  /\ (forall r', In r' (pend s') -> next_fut s <= r_fut r')
+  /\ (transport s = false \/ fl = Aio -> pend s' = [])
+  /\ (forall x y, In (x, y) (done s') -> In (x, y) (done s) \/ y = RErr (ELeave rs))
+  /\ lcore s' = lcore s.
 Proof. exact onLeave_clears. Qed.
 Print Assumptions C06_nothing_pending_after_leave.
 
+(* transport loss with the default onDisconnect: the tables are EMPTY afterwards whatever the callbacks do (without a
+   transport every request they try to issue is refused), every request pending before has a result *)
 Theorem C06_nothing_pending_after_transport_loss : forall fl cfg s clean,
   transport s = true -> u_disc_super cfg = true ->
   let s' := fst (step fl cfg s (OLost clean)) in
   transport s' = false /\ pend s' = []
+  /\ (forall r, In r (pend s) -> is_done s' (r_fut r) = true)
   /\ forall x y, In (x, y) (done s') -> In (x, y) (done s) \/ y = RErr (ELeave RsTransportLost) \/ y = RErr ETransportLost.
 Proof. exact lost_clears. Qed.
 Print Assumptions C06_nothing_pending_after_transport_loss.
 
-(* every future ever created for a request is, in every reachable state, pending in a table, completed, or on the
-   ghost list of futures whose record was dropped (the two ways: duplicate REGISTERED id, id wrap-around) *)
+(* every future ever created for a request -- by the user directly or by a re-entering callback -- is, in every
+   reachable state, pending in a table, completed, or on the ghost list of futures whose record was dropped (the two
+   ways: duplicate REGISTERED id, id wrap-around); together with the previous theorem: once the transport is gone,
+   completed or on that list *)
 Theorem C06_every_future_accounted : forall fl cfg ops f x,
   In (f, x) (issued (final fl cfg ops)) ->
   (exists r, In r (pend (final fl cfg ops)) /\ r_fut r = f) \/ is_done (final fl cfg ops) f = true
@@ -268,6 +302,15 @@ Example C06_witness_asyncio_settled :
   levs (trace Aio default_cfg (settle [OOpen; RWelcome 1; RGoodbye RsNormal; OLost true]))
     = [LvConnect; LvJoin; LvGoodbye; LvLeave; LvDisconnect].
 Proof. vm_compute. reflexivity. Qed.
+
+(* the retry idiom on the leave path (Twisted): the errback of a pending call issues a call again while the GOODBYE
+   sweep runs; the new request sits in the table after onLeave and is failed when the transport goes *)
+Example C06_witness_reentrant_errback :
+  let ops := [OOpen; RWelcome 7; ACall 1 [] [] None; AReact 0 (ACall 1 [] [] None); RGoodbye RsNormal] in
+  map r_fut (pend (final Tx default_cfg ops)) = [1] /\ is_done (final Tx default_cfg ops) 0 = true
+  /\ pend (final Tx default_cfg (ops ++ [OLost true])) = []
+  /\ done (final Tx default_cfg (ops ++ [OLost true])) = [(0, RErr (ELeave RsNormal)); (1, RErr ETransportLost)].
+Proof. vm_compute. repeat split; reflexivity. Qed.
 
 (* the closing handshake in both directions (Twisted) *)
 Example C06_witness_goodbye_both_ways :
